@@ -225,7 +225,9 @@ def _class_source(k, c, pc, base_names, ns, rec, name=None):
     items = c["items"]
     ib_items = [i for i in items if isinstance(i["val"], dict)]
     counters = [i["val"]["ib"]["counter"] for i in ib_items]
-    inline = counters == sorted(counters)
+    history = pc.get("history", "none") if c["kind"] != "plain" and not via.startswith("make_class") else "none"
+    # body objects shared with another class must exist before both class statements
+    inline = counters == sorted(counters) and history != "shared"
     uid = _SEQ[0] = _SEQ[0] + 1
     made = {}
     if not inline:
@@ -318,7 +320,41 @@ def _class_source(k, c, pc, base_names, ns, rec, name=None):
             first = these_var
         bases_t = f"({bases},)" if base_names else "(object,)"
         return "\n".join([*pre, f"{name} = attr.make_class('{name}', {first}, bases={bases_t}{rest_s})"]), None
-    return "\n".join([*pre, f"@{deco}({args})", f"class {name}({bases}):", *body]), None
+    if history == "none":
+        return "\n".join([*pre, f"@{deco}({args})", f"class {name}({bases}):", *body]), None
+    # ---- histories: the class object (or its body objects) has been through something before the decoration
+    # under test.  The expected tuple is a function of the body alone.
+    h = f"_h_{uid}"
+    lines = [*pre]
+    dk_nolean = {a: b for a, b in dk.items() if a not in ("repr", "eq", "slots", "frozen")}
+
+    def deco_call(extra):
+        merged = dict(dk_nolean)
+        merged.update(extra)
+        return f"{deco}(" + ", ".join(f"{a}={b}" for a, b in merged.items()) + ")"
+
+    if history == "shared":
+        # the attr.ib() objects / the these= dict were already used by another (dict) class
+        lines += [f"class _Donor_{uid}:", *body, "try:", f"    {deco_call({'slots': 'False'})}(_Donor_{uid})",
+                  "except Exception:", "    pass"]
+    lines += [f"class {name}({bases}):", *body, f"{h} = {name}"]
+    if history.startswith("failed"):
+        poison = {
+            "failed_cache_hash": {"cache_hash": "True", "eq": "False", "slots": "False"},
+            "failed_frozen_on_setattr": {"frozen": "True", "on_setattr": "attr.setters.validate", "slots": "False"},
+            "failed_hash_value": {"hash": "'yes'", "slots": "False"},
+            "failed_cache_hash_no_init": {"unsafe_hash": "True", "cache_hash": "True", "init": "False", "slots": "False"},
+        }[history]
+        lines += ["try:", f"    {deco_call(poison)}({h})", f"    _rejected_{uid} = False", "except Exception:",
+                  f"    _rejected_{uid} = True",
+                  f"assert _rejected_{uid}, 'harness: the poisoned decoration was expected to be refused'"]
+    elif history == "twice_slots_first":
+        # a slotted build makes a new class and must leave the original body alone
+        lines += ["try:", f"    {deco_call({'slots': 'True'})}({h})", "except Exception:", "    pass"]
+    # (decorating a dict class in place twice is not a history the property covers: the first decoration rewrites
+    # the class by design -- attr.ib()s removed, __setattr__ installed -- and define refuses the second one)
+    lines += [f"{name} = {deco}({args})({h})"]
+    return "\n".join(lines), None
 
 
 def new_namespace():
